@@ -44,7 +44,9 @@ THEOREMS_DOC = {
     'C04_alerting_without_change': 'gateway ready, stream requests of known nodes, repeated identical value alert without tree change',
     'C04_callbacks_history': 'callback log of a whole history = one event per alerting accepted line, in order, with the tree after it',
     'C04_callback_raise_irrelevant': 'alert is total and touches only log and flag; no callback outcome exists in the model',
-    'C04_setters_fallback': 'closed forms of battery_of / heartbeat_of / safe_version with fallbacks 0 / 0 / 1.4'}
+    'C04_setters_fallback': 'closed forms of battery_of / heartbeat_of / safe_version with fallbacks 0 / 0 / 1.4',
+    'C04_version_held_numeric': 'for ALL oracle tables and every dotted numeric payload p: safe_version p = p if p is numerically >= 1.4 (num_ge on section values) else "1.4"; a node holding a dotted numeric version is served with the table of floor_ver = the greatest supported version not numerically above it',
+    'C04_floor_ver_is_floor': 'floor_ver l is the greatest of 1.4/1.5/2.0/2.1/2.2 that l is numerically at least (1.4 when l is below all of them)'}
 SCOPE = ["tree", "CB"]
 MONITORS = ["c04"]
 
